@@ -38,8 +38,64 @@ def par(cmds, what='compile', soft=False):
                 die_infra('%s failed: %s\n%s' % (what, ' '.join(c), r.stderr[-3000:]))
 
 
+_CMAKE = None
+
+
+def cmake_config():
+    """What the project's own build passes to the compiler for the library sources: the checks compile src/**/*.c
+    themselves (in many worlds), so preprocessor definitions that only the CMake build makes (options that default to ON,
+    results of configure-time probes, generated configuration headers) have to be taken over, or code that ships in the
+    library would never be executed. -> {'defs': [...], 'incs': [...], 'srcs': [...], 'note': str}"""
+    global _CMAKE
+    if _CMAKE is not None:
+        return _CMAKE
+    d = os.path.join(ROOT, 'build', 'cmake-config-%d' % os.getpid())
+    shutil.rmtree(d, ignore_errors=True)
+    os.makedirs(d)
+    import atexit
+    atexit.register(shutil.rmtree, d, True)
+    cfg = {'defs': [], 'incs': [], 'srcs': [], 'note': ''}
+    r = sh(['cmake', '-S', REPO, '-B', d, '-G', 'Ninja', '-DCMAKE_EXPORT_COMPILE_COMMANDS=ON'])
+    cc = os.path.join(d, 'compile_commands.json')
+    if r.returncode != 0 or not os.path.exists(cc):
+        cfg['note'] = 'the project does not configure with cmake (%s); its own compile definitions are not known' % (r.stderr.strip().splitlines() or ['?'])[-1][:120]
+        _CMAKE = cfg
+        return cfg
+    import shlex
+    defs, incs, srcs = [], [], []
+    for e in json.load(open(cc)):
+        f = os.path.normpath(os.path.join(e.get('directory', ''), e['file']))
+        if not f.startswith(os.path.join(REPO, 'src') + os.sep):
+            continue
+        srcs.append(f)
+        args = e.get('arguments') or shlex.split(e.get('command', ''))
+        i = 0
+        while i < len(args):
+            a = args[i]
+            if a.startswith('-D') and not a.startswith('-Dopen1722') and 'EXPORTS' not in a:
+                v = a if len(a) > 2 else a + args[i + 1]
+                if v not in defs:
+                    defs.append(v)
+            elif a.startswith('-I') or a == '-isystem':
+                v = a[2:] if a.startswith('-I') and len(a) > 2 else args[i + 1]
+                v = os.path.normpath(v)
+                if v not in (os.path.join(REPO, 'include'), os.path.join(REPO, 'src')) and v not in incs and os.path.isdir(v):
+                    incs.append(v)
+            i += 1
+    cfg.update(defs=defs, incs=incs, srcs=sorted(set(srcs)))
+    _CMAKE = cfg
+    return cfg
+
+
+def lib_flags():
+    """include paths and project definitions for compiling a source of the library"""
+    c = cmake_config()
+    return ['-I' + os.path.join(REPO, 'include'), '-I' + os.path.join(REPO, 'src')] + ['-I' + i for i in c['incs']] + list(c['defs'])
+
+
 def repo_sources():
-    srcs = sorted(glob.glob(os.path.join(REPO, 'src', '**', '*.c'), recursive=True))
+    srcs = set(glob.glob(os.path.join(REPO, 'src', '**', '*.c'), recursive=True)) | set(cmake_config()['srcs'])
+    srcs = sorted(s for s in srcs if os.path.exists(s))
     if not srcs:
         die_infra('no sources under %s/src' % REPO)
     return srcs
@@ -82,7 +138,7 @@ def build_world(wdir, gdir, cc='gcc', cflags=('-O2', '-g'), world_srcs=(), defin
     """compile the library of the current working tree plus the thunks with one
     compiler/flag set; returns the list of object files"""
     os.makedirs(wdir, exist_ok=True)
-    base = [cc, '-std=gnu99', '-I' + os.path.join(REPO, 'include'), '-I' + os.path.join(REPO, 'src'), '-I' + os.path.join(ROOT, 'world')] + list(cflags) + list(defines)
+    base = [cc, '-std=gnu99', *lib_flags(), '-I' + os.path.join(ROOT, 'world')] + list(cflags) + list(defines)
     cmds, objs = [], []
     gen_wraps = sorted(glob.glob(os.path.join(gdir, 'wrap_*.c')))
     for s in repo_sources() + gen_wraps + [os.path.join(ROOT, 'world', w) for w in world_srcs]:
